@@ -25,6 +25,8 @@ pub enum Seam {
     Mp { body: Vec<u8>, max_file_size: Option<usize>, max_num_files: Option<usize>, cuts: Vec<usize> },
     /// `WebSocket::new(schema, byte messages, protocol)` hand-polled; proto 0 = graphql-ws (legacy), 1 = graphql-transport-ws
     Ws { proto: u8, msgs: Vec<Vec<u8>>, eof: bool },
+    /// `async_graphql::parser::parse_query` alone (attribution of overflows: parser vs later stages)
+    Parse(String),
     /// programmatically built deep value -> `Variables::from_json` -> execute (NOT reachable through serde_json: depth cap 128)
     Prog { object: bool, depth: usize },
 }
@@ -301,6 +303,16 @@ pub fn process(s: &Schemas, input: &Input) -> Out {
             }
         }
         Seam::Ws { proto, msgs, eof } => Ok(run_ws(s, *proto, msgs, *eof)),
+        Seam::Parse(q) => match async_graphql::parser::parse_query(q) {
+            Ok(d) => {
+                drop(d);
+                Ok(Out::Acc)
+            }
+            Err(e) => {
+                let _ = e.to_string();
+                Ok(Out::Err)
+            }
+        },
         Seam::Prog { object, depth } => {
             let mut m = serde_json::Map::new();
             m.insert("v".into(), deep_json(*object, *depth));
@@ -340,6 +352,7 @@ pub fn render(input: &Input) -> serde_json::Value {
         Seam::Json { which, body, cuts } => json!({"seam": (["receive_json", "receive_batch_json", "receive_batch_body(no content type)", "receive_batch_body(application/json)"][*which as usize]), "body": clipb(body), "cuts": cuts}),
         Seam::Mp { body, max_file_size, max_num_files, cuts } => json!({"seam": "receive_batch_body(multipart/form-data)+execute_batch", "boundary": MP_BOUNDARY, "body": clipb(body), "max_file_size": max_file_size, "max_num_files": max_num_files, "cuts": cuts}),
         Seam::Ws { proto, msgs, eof } => json!({"seam": "http::WebSocket", "protocol": if *proto == 0 { "graphql-ws" } else { "graphql-transport-ws" }, "messages": msgs.iter().map(|m| clipb(m)).collect::<Vec<_>>(), "then": if *eof { "client closes" } else { "client stays silent" }}),
+        Seam::Parse(q) => json!({"seam": "parser::parse_query", "query": clip(q)}),
         Seam::Prog { object, depth } => json!({"seam": "Variables::from_json(programmatic)+execute", "shape": if *object { "object" } else { "list" }, "depth": depth}),
     }
 }
